@@ -214,8 +214,21 @@ pub struct Drain<'a, K, V, S> {
 
 impl<'a, K, V, S> Drain<'a, K, V, S> {
     pub(crate) fn new(cache: &'a mut LruCache<K, V, S>) -> Drain<'a, K, V, S> {
+        let iterator = TakingIterator::new(cache);
+
+        // Set the cache as empty right away, without dropping the entries.
+        // The iterator reads them from the memory of the table, which stays
+        // allocated and untouched for as long as the cache is borrowed. If
+        // the Drain is leaked, the entries it has not yielded are leaked,
+        // but the cache no longer refers to entries that were moved out.
+
+        cache.seal.get_mut().next = cache.seal;
+        cache.seal.get_mut().prev = cache.seal;
+        cache.current_size = 0;
+        cache.table.clear_no_drop();
+
         Drain {
-            iterator: TakingIterator::new(cache),
+            iterator,
             cache
         }
     }
@@ -239,15 +252,9 @@ impl<'a, K, V, S> Drop for Drain<'a, K, V, S> {
     fn drop(&mut self) {
         // Drop all allocated memory of the remaining elements.
 
+        // The cache itself was set as empty when the Drain was created.
+
         for _ in self.by_ref() { }
-
-        // Set the cache as empty.
-
-        self.cache.seal.get_mut().next = self.cache.seal;
-        self.cache.seal.get_mut().prev = self.cache.seal;
-
-        self.cache.current_size = 0;
-        self.cache.table.clear_no_drop();
     }
 }
 
